@@ -5,7 +5,7 @@ import json
 import re
 
 BLANK = {
-    "e": "", "who": "", "cid": 0, "api": "", "id": 0, "body": ["empty", ""], "big": False, "large": False, "slow": False, "mode": "", "et": "",
+    "e": "", "who": "", "cid": 0, "api": "", "id": 0, "body": ["empty", ""], "big": False, "large": False, "slow": False, "detc": False, "mode": "", "et": "",
     "name": "", "events": [], "idc": "ok", "agen": 0, "which": "", "feat": False,
     "status": 0, "kind": "", "inv": 0, "pl": 0, "reason": "", "net": "",
     "base": "", "gen": 0, "pk": "", "err": "", "cause": "",
@@ -216,6 +216,7 @@ def project(raw_events, scenario, bound=None):
         return body_label(lbl)
 
     pending_lines = None
+    detached_cids = set()
     for ev in raw_events:
         kind = ev.get("ev")
         o = dict(BLANK, src=ev.get("seq", 0), t=ev.get("t", 0))
@@ -246,6 +247,8 @@ def project(raw_events, scenario, bound=None):
                 o["big"] = ev.get("size", 0) > MAX_PAYLOAD
                 o["et"] = ev.get("errType", "")
                 o["mode"] = ev.get("mode", "") or ""
+                if ev.get("detached"):
+                    detached_cids.add(ev["seq"])        # sent by a helper that outlives the runtime process
                 if ev.get("slow"):
                     o["slow"] = True
                     if not ev.get("abort"):     # an upload that breaks off never completes its body
@@ -278,6 +281,7 @@ def project(raw_events, scenario, bound=None):
         elif kind in RETS:
             o.update(e="Ret", cid=ev.get("cid", 0), who=who_of(ev.get("who", ev["actor"])), status=ev.get("status", 0),
                      et=ev.get("errType", ""), net=ev.get("net", ""), gen=ev.get("gen", 0))
+            o["detc"] = o["cid"] in detached_cids
             open_calls[:] = [c_ for c_ in open_calls if c_[0] != o["cid"]]
             if kind == "RegisterRet" and ev.get("status") == 200:
                 good = (ev.get("fn") == "test_function" and ev.get("ver") == "$LATEST" and ev.get("handler") == "handler.fn"
